@@ -6,5 +6,8 @@ export CARGO_NET_OFFLINE=true
 mkdir -p target evidence
 ( cd harness && CARGO_TARGET_DIR="$(pwd)/../target/harness" cargo build --offline --profile mc -p mc -p mc-sandbox )
 ( cd harness-loom && CARGO_TARGET_DIR="$(pwd)/../target/loom" cargo build --offline --profile mc )
+# C19 also runs in the profile of a released build (no debug assertions, no overflow checks)
+( cd harness && CARGO_TARGET_DIR="$(pwd)/../target/harness" cargo build --offline --profile mcrel -p mc-sandbox )
+( cd harness-loom && CARGO_TARGET_DIR="$(pwd)/../target/loom" cargo build --offline --profile mcrel )
 ( cd /repo && CARGO_TARGET_DIR="$(cd /verif && pwd)/target/repo-cli" CARGO_PROFILE_DEV_OPT_LEVEL=1 CARGO_PROFILE_DEV_DEBUG=0 cargo build --offline -p rink )
 echo "setup done"
